@@ -45,7 +45,8 @@ func (r *rel) env(row []string) env {
 	return e
 }
 
-const maxModelRows = 600
+// maxModelRows bounds model results (raised for the many-key lookup class).
+var maxModelRows = 600
 
 type tooBig struct{}
 
@@ -200,11 +201,15 @@ func (d *dbT) eval1(q *qnode) (*rel, error) {
 		if q.op != "semijoin" {
 			out.cols = append(append([]string(nil), s.cols...), extra...)
 		}
+		kb := make([]string, len(s2.rows))
+		for j, b := range s2.rows {
+			kb[j] = rowKey(pick(b, i2))
+		}
 		for _, a := range s.rows {
 			matched := false
 			ka := rowKey(pick(a, i1))
-			for _, b := range s2.rows {
-				if ka != rowKey(pick(b, i2)) {
+			for j, b := range s2.rows {
+				if ka != kb[j] {
 					continue
 				}
 				matched = true
